@@ -150,6 +150,19 @@ def alphabet(n, full=True):
     for name in ("sum", "first", "size"):
         A.append((name + "@slice", lambda g, c, raw, GB, f=cat[name].fn: f(g, c), "slice"))
         A.append((name + "@pos", lambda g, c, raw, GB, f=cat[name].fn: f(g, c), "pos"))
+    # narrow / unsigned / bool values: their "empty group" sentinels are ordinary numbers for the
+    # scalar reducers, so a merge of partial results that forgets a count shows up only here
+    def narrow(dt, op):
+        def f(g, c, raw, GB):
+            from mc import concrete as C_
+            v = np.array(C_.u_table(dt, 0)[:c.n], dtype=C_._np_name(dt))
+            if isinstance(c.V, pd.Series):
+                v = pd.Series(v, index=c.V.index, name="v")
+            return getattr(g, op)(v, mask=c.M)
+        return f
+    for dt, op, mk in (("i4", "min", False), ("i4", "last", False), ("u1", "max", False), ("b", "min", False),
+                       ("i4", "min", "bool"), ("u1", "last", "bool")):
+        A.append((f"{op}:{dt}" + ("@bool" if mk else ""), narrow(dt, op), mk))
     A.append(("has_null_keys", lambda g, c, raw, GB: g.has_null_keys, False))
     A.append(("ikey_count", lambda g, c, raw, GB: pd.Series(g.ikey_count), False))
     A.append(("count_ikey@bool", lambda g, c, raw, GB: pd.Series(g.count_ikey(mask=c.M)), "bool"))
